@@ -39,12 +39,19 @@ Rules ==
       f \in Atoms, x \in Targets, g \in Pkgs \cup {""}, n \in Pkgs \cup {""}}
   \cup {[t |-> "fail", from |-> f, to |-> f, guard |-> g, newpkg |-> ""] : f \in Atoms, g \in Pkgs \cup {""}}
   \cup {[t |-> "split", from |-> f, to |-> x, guard |-> "", newpkg |-> ""] : f \in Atoms, x \in Targets}
+  \* the same rename written as a STATEMENT pattern ('-defer from(x)' '+defer to(x)': the file's calls are
+  \* deferred calls then); statement patterns go through the elision machinery for statement lists
+  \cup {[t |-> "sren", from |-> f, to |-> x, guard |-> "", newpkg |-> ""] : f \in Atoms, x \in Targets}
   \* '-from(x)' '+to(x)' WITHOUT declaring x: x is the plain identifier x, so only calls whose
   \* argument is that identifier are renamed (argument 0 stands for the identifier x)
   \cup {[t |-> "renlit", from |-> f, to |-> x, guard |-> "", newpkg |-> ""] : f \in Atoms, x \in Targets}
-WellFormedRule(r) == /\ (r.t \in {"ren", "renlit"} => r.from # r.to)
+WellFormedRule(r) == /\ (r.t \in {"ren", "renlit", "sren"} => r.from # r.to)
                      /\ (r.newpkg # "" => (r.guard # "" /\ r.newpkg # r.guard))   \* a rename is written '-package g' '+package n'
 Calls == {[f |-> a, args |-> <<v>>] : a \in Atoms, v \in {0, 1, 2}} \cup {[f |-> a, args |-> <<1, 2>>] : a \in Atoms}
+\* a statement-level rename only sees calls that are statements themselves: the calls that `split`
+\* nests inside pair(...) are not, so the two kinds of rule are not mixed in one sequence
+WellFormedSeq(rs) == /\ \A i \in 1..Len(rs) : WellFormedRule(rs[i])
+                     /\ ~((\E i \in 1..Len(rs) : rs[i].t = "sren") /\ (\E i \in 1..Len(rs) : rs[i].t = "split"))
 Files == [pkg : Pkgs, body : UNION {[1..n -> Calls] : n \in 1..MaxLen}]
 
 SeqToSet(s) == {s[i] : i \in 1..Len(s)}
@@ -59,7 +66,13 @@ RewriteBody(b, r, i) ==
   ELSE (IF ~Hit(b[i], r) THEN <<b[i]>>
         ELSE IF r.t = "split" THEN <<[f |-> r.to, args |-> <<b[i].args[1]>>], [f |-> r.to, args |-> <<b[i].args[2]>>]>>
         ELSE <<[f |-> r.to, args |-> b[i].args]>>) \o RewriteBody(b, r, i + 1)
-Rewrite(file, r) == [pkg |-> IF r.newpkg = "" THEN file.pkg ELSE r.newpkg, body |-> RewriteBody(file.body, r, 1)]
+\* a statement pattern rewrites the first instance in a block (all calls of a file are in one block)
+FirstHit(b, r) == CHOOSE i \in 1..Len(b) : Hit(b[i], r) /\ \A j \in 1..(i - 1) : ~Hit(b[j], r)
+Rewrite(file, r) ==
+  [pkg |-> IF r.newpkg = "" THEN file.pkg ELSE r.newpkg,
+   body |-> IF r.t = "sren"
+            THEN [i \in 1..Len(file.body) |-> IF i = FirstHit(file.body, r) THEN [f |-> r.to, args |-> file.body[i].args] ELSE file.body[i]]
+            ELSE RewriteBody(file.body, r, 1)]
 
 \* ---------------------------------------------------------------- P-layer --
 \* one run per change: [ok, file]
@@ -79,7 +92,7 @@ VARIABLES file0, rules, cur, k, st, log
 vars == <<file0, rules, cur, k, st, log>>
 
 Init == /\ file0 \in Files
-        /\ rules \in {rs \in UNION {[1..n -> Rules] : n \in 1..MaxChanges} : \A i \in 1..Len(rs) : WellFormedRule(rs[i])}
+        /\ rules \in {rs \in UNION {[1..n -> Rules] : n \in 1..MaxChanges} : WellFormedSeq(rs)}
         /\ cur = file0 /\ k = 1 /\ st = "run" /\ log = <<>>
 
 \* c.Match(f) on the current tree; then c.Replace
